@@ -22,6 +22,7 @@ EXPLANATION = (
     "(7) cursor coordinates and click positions are computed on the same text the layout was built from (self.get_text()[0], i.e. the masked text when a mask is set); (6) ALPHABET: valid_char of the numeric variants admits a character only under a membership test in a finite alphabet (or equality with '-'), never a Unicode predicate."
     ' Added after seed round 3: (9) ACCUM on calc_coords / calc_line_pos; (10) OFFSTEP on the position functions (End/Home never return `offset +- 1`); (11) after set_edit_text(), which clamps the cursor, the cursor is not updated relative to self.edit_pos in the same statement sequence.'
     ' Round 4: (12) LOOPFRESH on calc_coords; (13) the row bounds of Edit.move_cursor_to_coords (C09.10); (14) the UTF-8 scan bound (C11.12).'
+    ' Round-4 triage: (15) case-mapped alphabet tests are conjoined with isascii(), every accepting return of NumEdit.valid_char depends on the cursor position (nothing in front of a leading minus sign), validating regexes use fullmatch and re.ASCII with IGNORECASE; C10.6 now accepts any accepting return that is dominated by a bounding test (false alarm on the repaired valid_char corrected).'
 )
 NOT_DECIDED = "Equality with the reference editor: row moves, preferred-column arithmetic, clip-mode view shift, click-to-offset mapping, leading-zero trimming arithmetic of IntEdit/NumEdit."
 ASSUMPTIONS = []
@@ -263,8 +264,8 @@ def rule_alphabet(ctx: Ctx) -> RuleResult:
             v = r.value
             used = {x.func.attr for x in ast.walk(v) if isinstance(x, ast.Call) and isinstance(x.func, ast.Attribute) and x.func.attr in UNICODE_PREDICATES and isinstance(x.func.value, ast.Name) and x.func.value.id == ch} if v is not None else set()
             ok = v is None or bounded(v)
-            if not ok and isinstance(v, ast.Constant) and v.value is True:
-                # `return True` must be dominated by a bounding test's true edge
+            if not ok:
+                # an accepting return (`return True`, `return <further condition>`) must be dominated by a bounding test's true edge
                 rn = nodes_where(cfg, lambda x: x is r)
                 tests = [n for n in cfg.nodes if n.kind == "test" and bounded(n.ast)]
                 ok = any(all(x in cfg.reachable_from_edges([(t, "T")]) and x not in cfg.reachable_from_edges([(t, "F")], avoid=[]) or False for x in rn) for t in tests)
@@ -315,6 +316,62 @@ def _row_range(ctx: Ctx):
     return c09.rule_edit_row_range(ctx, "C10.13")
 
 
+def rule_alphabet_strict(ctx: Ctx) -> RuleResult:
+    """Three refinements of 'never holds a character outside the allowed alphabet, apart from a single leading
+    minus sign':
+    (a) a membership test made on the case-mapped character (`ch.upper() in allowed`) admits every character whose
+        mapping lands in the alphabet - 'ı'.upper() == 'I', 'ſ'.upper() == 'S' - unless it is conjoined with
+        ch.isascii();
+    (b) in NumEdit.valid_char every accepting return depends on the cursor position: with a minus sign at the front
+        a character typed at position 0 would go in front of it;
+    (c) a regular expression that validates an initial value is applied with fullmatch (a trailing `$` lets a final
+        newline through) and, when it ignores case, with re.ASCII (Unicode IGNORECASE makes [A-Z] match 'ı' / 'ſ')."""
+    from ..rules.defuse import DefUse
+
+    p = ctx.p
+    rr = RuleResult("ALPHABET", "C10.15", "case-mapped alphabet tests are ASCII-only; NumEdit accepts nothing in front of a leading minus sign; validating regexes use fullmatch (+ re.ASCII with IGNORECASE)", floor=4)
+    mods = ("urwid.numedit", "urwid.widget.edit")
+    for fi in p.functions.values():
+        if fi.module.name not in mods:
+            continue
+        for n in fi.own_nodes():
+            # (a)
+            if isinstance(n, ast.Compare) and len(n.ops) == 1 and isinstance(n.ops[0], ast.In) and isinstance(n.left, ast.Call) and isinstance(n.left.func, ast.Attribute) and n.left.func.attr in ("upper", "lower", "casefold") and isinstance(n.left.func.value, ast.Name):
+                ch = n.left.func.value.id
+                # the enclosing `and` must contain ch.isascii()
+                guarded = False
+                for b in fi.own_nodes():
+                    if isinstance(b, ast.BoolOp) and isinstance(b.op, ast.And) and any(v is n for v in b.values):
+                        guarded = any(isinstance(v, ast.Call) and isinstance(v.func, ast.Attribute) and v.func.attr == "isascii" and isinstance(v.func.value, ast.Name) and v.func.value.id == ch for v in b.values)
+                rr.inst(f"{short(fi)}:{norm(n, 50)}", True, {"function": short(fi), "test": norm(n, 60), "ascii_only": guarded})
+                if not guarded:
+                    rr.add(finding("ALPHABET", fi, n, f"`{norm(n, 60)}` tests the case-mapped character: str.{n.left.func.attr}() maps non-ASCII letters onto ASCII ones ('ı' -> 'I', 'ſ' -> 'S', 'K' -> 'k'), so for an alphabet containing those letters a character outside the alphabet is accepted and stored", construct=f"case-mapped membership without isascii(): {norm(n, 60)}"))
+            # (c)
+            if isinstance(n, ast.Call) and isinstance(n.func, ast.Attribute) and isinstance(n.func.value, ast.Name) and n.func.value.id == "re" and n.func.attr in ("match", "search", "fullmatch"):
+                flags = ast.unparse(n.args[2]) if len(n.args) > 2 else next((ast.unparse(k.value) for k in n.keywords if k.arg == "flags"), "")
+                icase = "IGNORECASE" in flags or "re.I" in flags.split("|")
+                ascii_ = "ASCII" in flags
+                ok = n.func.attr == "fullmatch" and (not icase or ascii_)
+                rr.inst(f"{short(fi)}:{norm(n, 50)}", True, {"function": short(fi), "call": norm(n, 70), "ok": ok})
+                if n.func.attr != "fullmatch":
+                    rr.add(finding("ALPHABET", fi, n, f"`{norm(n, 70)}` validates with re.{n.func.attr}(): a pattern anchored with `$` also matches before a trailing newline, so 'digits\\n' passes and the newline ends up in the edit text; use re.fullmatch", construct=f"validation with re.{n.func.attr}"))
+                elif icase and not ascii_:
+                    rr.add(finding("ALPHABET", fi, n, f"`{norm(n, 70)}` ignores case in Unicode mode: [A-Z] then also matches 'ı' (U+0131), 'ſ' (U+017F) and 'K' (U+212A), which are not in the alphabet", construct="IGNORECASE validation without re.ASCII"))
+    # (b)
+    vc = p.func("urwid.numedit.NumEdit.valid_char")
+    du = DefUse(vc)
+    for r in [n for n in vc.own_nodes() if isinstance(n, ast.Return) and n.value is not None]:
+        if isinstance(r.value, ast.Constant) and r.value.value is False:
+            continue
+        at = du.node_of(r)
+        txt = ast.unparse(du.expand(r.value, at)) if at is not None else ast.unparse(r.value)
+        dep = "edit_pos" in txt
+        rr.inst(f"valid_char:{norm(r, 40)}", True, {"return": norm(r, 70), "depends_on_edit_pos": dep})
+        if not dep:
+            rr.add(finding("ALPHABET", vc, r, f"`{norm(r, 60)}` accepts a character whatever the cursor position: with a leading minus sign in the text a digit typed at position 0 is inserted in front of it ('-', '5', home, '3' gives '3-5') - the minus sign is no longer leading", construct=f"accepting return independent of edit_pos: {norm(r, 60)}"))
+    return rr
+
+
 def run(ctx: Ctx):
     p = ctx.p
     return [
@@ -325,6 +382,7 @@ def run(ctx: Ctx):
         rule_char_moves(ctx),
         rule_pref_col_reset(ctx),
         rule_alphabet(ctx),
+        rule_alphabet_strict(ctx),
         rule_same_text(ctx),
         rule_clamped_cursor_read(ctx),
         _row_range(ctx),
@@ -338,6 +396,10 @@ def run(ctx: Ctx):
 _F = "urwid/widget/edit.py"
 _N = "urwid/numedit.py"
 MUTANTS = [
+    Mut("numedit-case-mapped-membership", _N, "NumEdit.valid_char", "if ch in self._allowed or (ch.isascii() and ch.upper() in self._allowed):", "if ch.upper() in self._allowed:", "ALPHABET|numedit.NumEdit.valid_char|case-mapped"),
+    Mut("numedit-digit-before-minus", _N, "NumEdit.valid_char", "                return not (self.edit_pos == 0 and self.edit_text[:1] == \"-\")\n", "                return True\n", "ALPHABET|numedit.NumEdit.valid_char|accepting return"),
+    Mut("integeredit-default-dollar-anchor", _N, "IntegerEdit.__init__", "                validation_re = f\"[{allowed_chars}]+\"\n                if not re.fullmatch(validation_re, str(default), re.IGNORECASE | re.ASCII):", "                validation_re = f\"^[{allowed_chars}]+$\"\n                if not re.match(validation_re, str(default), re.IGNORECASE | re.ASCII):", "ALPHABET|numedit.IntegerEdit.__init__|validation with re.match"),
+    Mut("integeredit-default-unicode-icase", _N, "IntegerEdit.__init__", "re.IGNORECASE | re.ASCII", "re.IGNORECASE", "ALPHABET|numedit.IntegerEdit.__init__|IGNORECASE"),
     Mut("intedit-trim-text-before-cursor", "urwid/widget/edit.py", "IntEdit.keypress", "            self.set_edit_pos(self.edit_pos - 1)\n            self.set_edit_text(self.edit_text[1:])", "            self.set_edit_text(self.edit_text[1:])\n            self.set_edit_pos(self.edit_pos - 1)", "ORDER|widget.edit.IntEdit.keypress"),
     Mut("end-key-last-byte", "urwid/text_layout.py", "calc_line_pos", "        return calc_text_pos(text, s.offs, s.end, s.sc - 1)[0]\n\n    for seg in line_layout:", "        return s.end - 1\n\n    for seg in line_layout:", "OFFSTEP|text_layout.calc_line_pos"),
     Mut("pos-unclamped-low", _F, "Edit.set_edit_pos", "pos = min(max(pos, 0), len(self._edit_text))", "pos = min(pos, len(self._edit_text))", "WRITER|widget.edit.Edit.set_edit_pos"),
